@@ -7,7 +7,7 @@ decoder (vf.refcodec / json) and logged; at the end the stream is read back with
 evaluates the property invariants on the observed behaviour (contract mode, the verdict) and matches every
 step against Stream's own Write action (design mode, drift only).
 """
-import io, itertools, json, os, struct
+import io, itertools, json, os, struct, zlib
 
 from vf import check, common, refcodec as rc, simulate, tlc
 from vf.common import MachineryError
@@ -26,6 +26,7 @@ def universe():
         "H": RecordDescriptor("t/h", [("record", "r"), ("record[]", "rl")]),
         "Z": RecordDescriptor("t/z", []),                                  # a marker record: no fields at all
         "U": RecordDescriptor("t_x", [("string", "a"), ("string", "b")]),  # A's fields; the name differs only in "/" vs "_"
+        "Dd": RecordDescriptor("t/d", [("uint32", "v"), ("varint", "c"), ("uint32", "v")]),   # one field name declared twice
     }
 
 
@@ -37,15 +38,16 @@ FIELDS = {
     "H": ("t/h", (("record", "r"), ("record[]", "rl"))),
     "Z": ("t/z", ()),
     "U": ("t_x", (("string", "a"), ("string", "b"))),
+    "Dd": ("t/d", (("uint32", "v"), ("varint", "c"), ("uint32", "v"))),
 }
 BYFT = {v: k for k, v in FIELDS.items()}
-IDENT = {"A": "iA", "Acol": "iA", "A2": "iA2", "B": "iB", "H": "iH", "Z": "iZ", "U": "iU"}
-NAMEKEY = {"t/x": "nA", "t/y": "nB", "t/h": "nH", "t/z": "nZ", "t_x": "nU"}
+IDENT = {"A": "iA", "Acol": "iA", "A2": "iA2", "B": "iB", "H": "iH", "Z": "iZ", "U": "iU", "Dd": "iD"}
+NAMEKEY = {"t/x": "nA", "t/y": "nB", "t/h": "nH", "t/z": "nZ", "t_x": "nU", "t/d": "nD"}
 # identifier on the wire -> model key; computed with the independent hash of vf.refcodec
 WIREKEY = {}
 for _d, (_n, _f) in FIELDS.items():
     WIREKEY[(_n, rc.descriptor_hash(_n, _f))] = IDENT[_d]
-assert len(set(WIREKEY.values())) == 6, "A and Acol must really share an identifier"
+assert len(set(WIREKEY.values())) == 7, "A and Acol must really share an identifier"
 
 
 def leaf(d, bad=False):
@@ -57,7 +59,7 @@ def hold(ks):
 
 
 CORE = [leaf(d) for d in ["A", "A2", "Acol", "B"]]
-LEAVES = CORE + [leaf("Z"), leaf("U")]
+LEAVES = CORE + [leaf("Z"), leaf("U"), leaf("Dd")]
 BADLEAVES = [leaf(d, True) for d in ["A", "Acol", "B"]]
 HOLD = [hold(ks) for ks in [[]] + [[a] for a in LEAVES] + [[a, b] for a in CORE for b in CORE]
         + [[leaf("U"), leaf("A")], [leaf("A"), leaf("U")], [leaf("Z"), leaf("Z")], [leaf("Z"), leaf("B")]]]
@@ -99,6 +101,8 @@ def build(DESC, v, n=[0]):
         return DESC[d]("1", val)
     if d == "Z":
         return DESC[d]()
+    if d == "Dd":
+        return DESC[d](5, 1)
     if d == "A2":
         return DESC[d](10**5000 if v.get("bad") else 3)   # json.dumps cannot turn an integer of 5000 digits into text
     return DESC[d](val)
@@ -283,14 +287,20 @@ class JsonPath(PathBased):
         return frames_json(self._new().decode(), v)
 
 
-def run_history(kind, hist, DESC, tmp):
-    """hist: list of (writer id, value).  -> trace (list of events)"""
+def run_history(kind, hist, DESC, tmp, reuse=False):
+    """hist: list of (writer id, value).  -> trace (list of events).  reuse: the SAME record object is handed to write()
+    every time its value occurs in the history (fan-out to several writers, a record written twice)"""
     ws = {}
     tr = []
+    objs = {}
     for wid, v in hist:
         if wid not in ws:
             ws[wid] = kind(tmp, wid)
-        rec = build(DESC, v)
+        if reuse and not is_fail(v):
+            k = json.dumps(v, sort_keys=True)
+            rec = objs[k] if k in objs else objs.setdefault(k, build(DESC, v))
+        else:
+            rec = build(DESC, v)
         ok = True
         try:
             fr = ws[wid].write(rec, v)
@@ -454,8 +464,14 @@ def run(tier):
         hists += sims
         # chunk so that one TLC invocation parses <= ~20 MB of JSON
         chunk, traces, size, part = [], [], 0, 0
-        for h in hists:
-            tr = run_history(kind, h, DESC, tmp)
+        # histories in which a value occurs more than once are ALSO replayed with one record object per value
+        def repeats(h):
+            ks = [json.dumps(v, sort_keys=True) for _, v in h]
+            return len(set(ks)) < len(ks)
+        work = [(h, False) for h in hists] + [(h, True) for h in hists if repeats(h) and (len(h) <= 3 or zlib.crc32(hist_key(h).encode()) % 4 == 0)]
+        ctx.extra["histories_with_object_reuse_" + kind.name] = sum(1 for _, r in work if r)
+        for h, reuse in work:
+            tr = run_history(kind, h, DESC, tmp, reuse)
             traces.append(tr)
             chunk.append(h)
             size += 120 * sum(len(json.dumps(e)) // 120 + 1 for e in tr)
